@@ -7,9 +7,13 @@ import (
 	"github.com/blevesearch/bleve/v2/util"
 )
 
-// verifOpt: a string option that is either empty or a one-letter symbolic value.
-func verifOpt(label string) string {
-	if rt.Param("allow_empty", 1) == 1 && rt.Choice(label+"_empty", 2) == 1 {
+// verifOpt: a string option that is either empty or a one-letter symbolic value. Whether the empty
+// value is explored depends on the allow_empty bound: 0 never, 1 for index-level options only
+// (level 1), 2 for every option.
+func verifOpt(label string) string { return verifOptL(label, 2) }
+
+func verifOptL(label string, level int) string {
+	if rt.Param("allow_empty", 1) >= level && rt.Choice(label+"_empty", 2) == 1 {
 		return ""
 	}
 	s := rt.String(label, 1)
@@ -92,12 +96,12 @@ func VerifH_C16_RoundTrip() {
 	im.StoreDynamic = rt.Bool("store_dynamic")
 	im.IndexDynamic = rt.Bool("index_dynamic")
 	im.DocValuesDynamic = rt.Bool("docvalues_dynamic")
-	im.TypeField = verifOpt("type_field")
-	im.DefaultType = verifOpt("default_type")
-	im.DefaultAnalyzer = verifOpt("default_analyzer")
-	im.DefaultDateTimeParser = verifOpt("default_datetime_parser")
-	im.DefaultField = verifOpt("default_field")
-	im.ScoringModel = verifOpt("scoring_model")
+	im.TypeField = verifOptL("type_field", 1)
+	im.DefaultType = verifOptL("default_type", 1)
+	im.DefaultAnalyzer = verifOptL("default_analyzer", 1)
+	im.DefaultDateTimeParser = verifOptL("default_datetime_parser", 1)
+	im.DefaultField = verifOptL("default_field", 1)
+	im.ScoringModel = verifOptL("scoring_model", 1)
 	im.DefaultMapping = verifDocMapping(true)
 	if rt.Choice("type_mapping", 2) == 1 {
 		im.TypeMapping["t"] = verifDocMapping(false)
